@@ -1,4 +1,4 @@
-import TR.Lemmas.TimeLimiterOrder
+import TR.Lemmas.TimeLimiterKnob
 /-!
 # C06 — the time limiter resolves every call by its deadline
 
@@ -46,6 +46,42 @@ theorem timeout_source (cfg : Cfg) (ops : List Op) (c : Nat) (tmo : Option Tmo) 
     (∀ n, newCaller (.ms n) sc = { tmo := n, unl := false, sc := sc }) ∧
     (newCaller .max sc).unl = true := by
   exact ⟨recordAfter_arrive_new cfg _ c tmo sc hnew, fun _ => rfl, rfl⟩
+
+/-- **The timeout of a call is fixed by `call()`.**  The timeout source may be any closure: here it reads, besides the
+request, a knob that is turned at run time (`KOp.knob`, harness `manual knob v=…`; `runK`: operations of the service
+interleaved with turns of the knob).  (1) A call made while the knob is `k` captures what the source answers THEN — the
+request's own timeout, else `k`, else the default (`withKnob`; the fixed value for a fixed source).  (2) Whatever is
+requested afterwards — turns of the knob, other calls, first polls in any order, however late — the record of the call
+keeps that timeout (and its inner call): its deadline is `first poll + the timeout captured by call()`.  (3) Turning the
+knob is no operation of the service: it changes no record and no log line. -/
+theorem deadline_fixed_at_call (cfg : Cfg) (ops more : List KOp) (c : Nat) :
+    (∀ (own : Option Tmo) (sc : Step), lookup (runK cfg ops).2.callers c = none →
+       lookup (runK cfg (ops ++ [.op (.arrive c own sc)])).2.callers c
+         = some (newCaller (effTimeout cfg (withKnob (runK cfg ops).1 own)) sc)) ∧
+    (∀ x, lookup (runK cfg ops).2.callers c = some x →
+       ∃ y, lookup (runK cfg (ops ++ more)).2.callers c = some y ∧ y.tmo = x.tmo ∧ y.unl = x.unl ∧ y.sc = x.sc ∧
+         y.deadline = y.start + x.tmo) ∧
+    (∀ v, (runK cfg (ops ++ [.knob v])).2 = (runK cfg ops).2) := by
+  refine ⟨?_, ?_, ?_⟩
+  · intro own sc hnew
+    have h := recordAfter_arrive_new cfg (runK cfg ops).2 c (withKnob (runK cfg ops).1 own) sc hnew
+    simpa [runK, List.foldl_append, stepK, knobOp, recordAfter, effTimeout] using h
+  · intro x hx
+    have h := foldK_kept cfg more (runK cfg ops) c x hx
+    obtain ⟨y, hy, e1, e2, e3⟩ := h
+    refine ⟨y, ?_, e1, e2, e3, ?_⟩
+    · simpa [runK, List.foldl_append] using hy
+    · simp [Caller.deadline, e1]
+  · intro v
+    simp [runK, List.foldl_append, stepK]
+
+/-- The same at the level of the line protocol (`machineK`, what the driver runs): a `manual knob …` line leaves the
+service's state untouched and prints nothing; while the knob is unset every line is the step of `machine`. -/
+theorem knob_line_is_no_operation (m : machine.σ) (k : Option Tmo) (rest ws : List String) :
+    (machineK.step (m, k) ("manual" :: "knob" :: rest)).1.1 = m ∧
+    (machineK.step (m, k) ("manual" :: "knob" :: rest)).2 = [] ∧
+    knobWords none ws = ws :=
+  ⟨rfl, rfl, rfl⟩
 
 /-- The deadline counts from the **first poll** of the call future (not from `call()`): the
 first poll calls the inner service (`inner_call` is among its events) and arms
